@@ -49,8 +49,17 @@ func genC02(tier string, seed uint64, emit func(string)) {
 				// the large value of this stream
 				payload := bytes.Repeat([]byte{byte('a' + i%26)}, sizes[i-streams])
 				t = &Node{Kind: 'b', P: payload}
-				if i%2 == 1 {
+				kind := i % 4
+				if len(payload) > 8193 && kind >= 2 {
+					kind -= 2 // the model's line reader is quadratic in the line length: long lines stay below 8 KiB + 1
+				}
+				switch kind {
+				case 1:
 					t = &Node{Kind: 'a', Es: []*Node{{Kind: 'b', P: []byte("ECHO")}, {Kind: 'b', P: payload}}}
+				case 2: // a long status line (line payloads are not limited in length either)
+					t = &Node{Kind: 's', P: payload}
+				case 3:
+					t = &Node{Kind: 'a', Es: []*Node{{Kind: 'e', P: payload}, {Kind: 'b', P: payload[:7]}}}
 				}
 			}
 			vals = append(vals, t)
